@@ -79,18 +79,40 @@ Definition device_fields_ok (g : cfg) (host : string) (fwd : option string) (lif
       else is_prefix (vuri ++ "?user_code=")%string vuric)
   && (e =? life)%Z && (i =? g_interval g)%Z.
 
+(* "the requested scopes": as a SET - every requested scope is granted, nothing
+   is granted that was not requested; order and repetitions carry no meaning
+   (RFC 6749 3.3: "the order does not matter") *)
+Definition scopes_within (a b : list string) : bool := forallb (fun s => string_in s b) a.
+Definition same_scopes (a b : list string) : bool := scopes_within a b && scopes_within b a.
+
+(* "carry the approving user's subject": a subject names a user only relative to
+   the issuer that asserts it (OIDC Core 2: sub is unique within the issuer), so
+   a token that is a JWT (the ID token, a JWT access token) has to name the
+   provider's issuer - the issuer of THIS token request, as for the verification
+   URI - next to the subject *)
+Definition expected_issuer (g : cfg) (host : string) (fwd : option string) : string :=
+  request_issuer g host fwd.
+
 (* what a token answer needs *)
-Definition tokens_justified (cl : list client) (gt : store) (cr : creds) (dc : string) (f : fault)
-    (sub client : string) (scopes : list string) (idsub : option string) : bool :=
+Definition tokens_justified (g : cfg) (cl : list client) (gt : store) (cr : creds) (dc : string) (f : fault)
+    (host : string) (fwd : option string) (t : tokens) : bool :=
   match find_dev gt dc, find_client cl (claimed cr) with
   | Some d, Some c =>
       String.eqb (d_client d) (claimed cr)          (* the code was handed to this client *)
-      && String.eqb client (d_client d)
+      && String.eqb (t_client t) (d_client d)
       && proves_identity c cr
       && d_done d && negb (d_denied d)              (* the user approved it and did not deny it *)
-      && String.eqb sub (d_subject d)               (* ... as this subject *)
-      && strs_eqb scopes (d_scopes d)               (* the requested scopes *)
-      && match idsub with None => true | Some s => String.eqb s sub end
+      && String.eqb (t_sub t) (d_subject d)         (* ... as this subject *)
+      && same_scopes (t_scopes t) (d_scopes d)      (* the requested scopes: in the answer ... *)
+      && same_scopes (t_granted t) (d_scopes d)     (* ... and recorded with the access token *)
+      && match t_id t with
+         | None => true
+         | Some (s, i) => String.eqb s (d_subject d) && String.eqb i (expected_issuer g host fwd)
+         end
+      && match t_at_iss t with
+         | None => true
+         | Some i => String.eqb i (expected_issuer g host fwd)
+         end
       && match f with FNone => true | _ => false end
   | _, _ => false
   end.
@@ -134,9 +156,9 @@ Definition step_ok (g : cfg) (cl : list client) (gt : store) (o : op) (x : resp)
   | OpAuthz _ _ _ _ _ _ _ _, RErr _ => true
   | OpApprove _ _, RAck _ => true
   | OpDeny _, RAck _ => true
-  | OpPoll _ cr dc _ f, RTokens sub client scopes idsub _ =>
-      tokens_justified cl gt cr dc f sub client scopes idsub
-  | OpPoll _ cr dc now f, RErr code => refusal_ok cl gt cr dc now f code
+  | OpPoll _ cr dc _ f host fwd, RTokens t =>
+      tokens_justified g cl gt cr dc f host fwd t
+  | OpPoll _ cr dc now f _ _, RErr code => refusal_ok cl gt cr dc now f code
   | _, _ => false
   end.
 
@@ -199,9 +221,12 @@ Definition resp_eqb (a b : resp) : bool :=
   | RDevice d1 u1 v1 w1 e1 i1, RDevice d2 u2 v2 w2 e2 i2 =>
       String.eqb d1 d2 && String.eqb u1 u2 && String.eqb v1 v2 && String.eqb w1 w2
       && (e1 =? e2)%Z && (i1 =? i2)%Z
-  | RTokens s1 c1 sc1 i1 r1, RTokens s2 c2 sc2 i2 r2 =>
-      String.eqb s1 s2 && String.eqb c1 c2 && strs_eqb sc1 sc2
-      && option_eqb String.eqb i1 i2 && Bool.eqb r1 r2
+  | RTokens t1, RTokens t2 =>
+      String.eqb (t_sub t1) (t_sub t2) && String.eqb (t_client t1) (t_client t2)
+      && strs_eqb (t_scopes t1) (t_scopes t2) && strs_eqb (t_granted t1) (t_granted t2)
+      && option_eqb (fun a b => String.eqb (fst a) (fst b) && String.eqb (snd a) (snd b)) (t_id t1) (t_id t2)
+      && option_eqb String.eqb (t_at_iss t1) (t_at_iss t2)
+      && Bool.eqb (t_refresh t1) (t_refresh t2)
   | RErr a1, RErr a2 => String.eqb a1 a2
   | RAck a1, RAck a2 => Bool.eqb a1 a2
   | RPanic, RPanic => true
@@ -220,7 +245,7 @@ Definition obs_eqb (a b : observed) : bool :=
 (* ---- decision-path class: which kinds of answers the model run contains -- *)
 Definition resp_bit (x : resp) : nat :=
   match x with
-  | RTokens _ _ _ _ _ => 1
+  | RTokens _ => 1
   | RErr c =>
       if String.eqb c "authorization_pending" then 2
       else if String.eqb c "access_denied" then 4
